@@ -306,6 +306,22 @@ def order_case(case):
     return out
 
 
+def crowded(tag, n=8):
+    """More places than any "also found in" list prints: the n-th call site / occurrence / file must not be picked by luck."""
+    files = {}
+    for i in range(n):
+        files["crowd/calls_%s_%d.py" % (tag, i)] = (
+            "from crowd.engine_%s import apply_mode_%s\n\n\ndef use_%s_%d(engine):\n    apply_mode_%s(engine, \"%s\")\n    apply_mode_%s(engine, \"slow\")\n    return engine\n"
+            % (tag, tag, tag, i, tag, "fast" if i % 2 else "eco", tag))
+        files["crowd/calls_%s_%d.ts" % (tag, i)] = (
+            "export function useTs%s%d(engine: any): void {\n  engine.applyShade%s(\"%s\");\n  engine.applyShade%s(\"dark\");\n}\n" % (tag, i, tag, "light" if i % 2 else "dim", tag))
+        files["crowd/same_%s_%d.py" % (tag, i)] = (
+            "def same_%s_%d(alpha, beta):\n    crowd_gamma_%s = alpha + beta\n    crowd_delta_%s = crowd_gamma_%s * alpha\n    crowd_eps_%s = crowd_delta_%s - beta\n    return crowd_eps_%s\n\n\n"
+            "def pick_%s_%d(kind):\n    if kind in (\"crowd_a_%s\", \"crowd_b_%s\", \"crowd_c_%s\"):\n        return 1\n    return 0\n" % ((tag, i) + (tag,) * 6 + (tag, i) + (tag,) * 3))
+    files["crowd/engine_%s.py" % tag] = "def apply_mode_%s(engine, mode):\n    engine.mode = mode\n    return engine\n" % tag
+    return files
+
+
 def seed_case(case):
     root = runner.new_dir("d")
     runner.write_tree(root, case["files"])
@@ -349,6 +365,8 @@ def run(ctx):
         for nm in ("x", "y", "z"):
             files["src/tri_%s.py" % nm] = ("RETRY_LIMIT_MS_%d = 4217\nONLY_%s_%d = 1\n\n\ndef tri_%s_%d(alpha, beta):\n    gamma_%d = alpha + beta\n    delta_%d = gamma_%d * alpha\n"
                                             "    epsilon_%d = delta_%d - beta\n    return epsilon_%d\n") % (i, nm.upper(), i, nm, i, i, i, i, i, i, i)
+        if i % 2 == 0:
+            files.update(crowded("o%d" % i, 7 + i))
         srcs = sorted(f for f in files if not f.startswith("."))
         for cmd in ["dry", "stringly-typed", "magic-numbers", "nesting", "srp", "improper-logging", "unwrap-abuse", "file-header", "perf", "lbyl", "method-property"]:
             orders = []
@@ -377,6 +395,7 @@ def run(ctx):
     seeds = ["0", "1", "2", "3", "random"] if ctx.quick else [str(i) for i in range(24)] + ["random"]
     files = triggers.random_files(rng, tag="s")
     files.update({k: v for k, v in triggers.random_files(rng, tag="t").items() if k != ".thailint.yaml"})
+    files.update(crowded("s", 9))
     jobs = [{"files": files, "cmd": c, "seeds": seeds} for c in (["dry", "stringly-typed", "magic-numbers", "srp"] if ctx.quick else triggers.CMDS)]
     for job, o in zip(jobs, runner.pmap(seed_case, jobs, timeout=900)):
         if not o.get("ok"):
